@@ -13,6 +13,7 @@ import math
 from ..poly import Sym, mk_func
 from ..interp import Interp, Hooks, Cmp, NotC
 from ..model import AnalysisError
+from .. import purity
 from . import motion
 from .motion import V
 
@@ -157,6 +158,7 @@ def run(ck, prog, tier):
                        '(DESIGN.md C17)', 'float evaluation of t_mid does not cross a guard '
                        'boundary (measure-zero cases)']
     ck.trusted += ['python ast module', 'vf.poly normal forms', 'vf.interp']
+    purity.check(ck, prog, ['ebb_calc.max_rate_t3'], 'C17-R-pure')
     fn = prog.func('ebb_calc.max_rate_t3')
     f_rate = prog.func('ebb_calc.rate_t3')
     if fn.params != ['time', 'rate', 'accel', 'jerk']:
@@ -229,8 +231,7 @@ def run(ck, prog, tier):
                   'with T <= 1 the result does not include the rate at the only tick', fn.loc(),
                   key='max_rate_t3::endpoints')
         else:
-            if not (f.time_lo is not None and f.time_lo >= 2):
-                raise AnalysisError('max_rate_t3: a return path is neither T<=1 nor T>=2')
+            # the path admits some T >= 2: both end ticks are required
             ck.ob('C17-D2-endpoints', 'max_rate_t3::includes-tick-1[%s]' % pdesc, '1' in names,
                   'the reported maximum omits the rate at the first tick', fn.loc(),
                   key='max_rate_t3::endpoints')
